@@ -60,6 +60,13 @@ where
         }
     }
 
+    // As for the prover, an instance column must fit in the usable rows: the evaluation of a
+    // longer column would fold its entries beyond the domain onto the first rows.
+    let max_instance_len = (vk.n() as usize).saturating_sub(vk.cs.blinding_factors() + 1);
+    if instances.iter().any(|instances| instances.iter().any(|column| column.len() > max_instance_len)) {
+        return Err(Error::InstanceTooLarge);
+    }
+
     let num_proofs = instances.len();
 
     // Hash verification key into transcript
@@ -208,6 +215,12 @@ where
 
     if committed_instances.is_empty() {
         return Err(Error::InvalidInstances);
+    }
+
+    // An instance column must fit in the usable rows (see `parse_trace`).
+    let usable_rows = (vk.n() as usize).saturating_sub(vk.cs.blinding_factors() + 1);
+    if instances.iter().any(|instances| instances.iter().any(|column| column.len() > usable_rows)) {
+        return Err(Error::InstanceTooLarge);
     }
 
     let nb_committed_instances = committed_instances[0].len();
